@@ -52,7 +52,8 @@ pub const ALL_TIMERS: [Timer; 3] = [Timer::PingreqSend, Timer::PingreqRecv, Time
 #[derive(Clone, Debug, PartialEq, Eq, Serialize)]
 pub enum Ev {
     Send { pkt: Pkt, size: usize, bytes: Vec<u8>, release_on_err: Option<u32> },
-    Recv { pkt: Pkt, extracted: bool },
+    /// `enc`: (size(), serialised length, Remaining Length frames exactly that many bytes) of the delivered packet
+    Recv { pkt: Pkt, extracted: bool, enc: (usize, usize, bool) },
     Released(u32),
     TimerReset { kind: Timer, ms: u64 },
     TimerCancel(Timer),
@@ -63,7 +64,7 @@ impl Ev {
     pub fn short(&self) -> String {
         match self {
             Ev::Send { pkt, size, release_on_err, .. } => format!("Send[{} {}B rel={:?}]", pkt.short(), size, release_on_err),
-            Ev::Recv { pkt, extracted } => format!("Recv[{}{}]", pkt.short(), if *extracted { " extracted" } else { "" }),
+            Ev::Recv { pkt, extracted, .. } => format!("Recv[{}{}]", pkt.short(), if *extracted { " extracted" } else { "" }),
             Ev::Released(i) => format!("Released({})", i),
             Ev::TimerReset { kind, ms } => format!("TimerReset({:?},{})", kind, ms),
             Ev::TimerCancel(k) => format!("TimerCancel({:?})", k),
@@ -206,7 +207,15 @@ pub fn conv_events<P: Pid>(evs: Vec<GenericEvent<P>>) -> Vec<Ev> {
                     GenericPacket::V5_0Publish(x) => x.topic_name_extracted(),
                     _ => false,
                 };
-                Ev::Recv { pkt: bridge::from_lib(&p), extracted }
+                // (only small packets are re-serialised: the directed 17 MB .. 256 MB frames are judged elsewhere)
+                let enc = if p.size() <= 1 << 20 {
+                    let b = p.to_continuous_buffer();
+                    let framed = matches!(crate::refcodec::frame_at(&b), crate::refcodec::Framed::Frame { total, .. } if total == b.len());
+                    (p.size(), b.len(), framed)
+                } else {
+                    (p.size(), p.size(), true)
+                };
+                Ev::Recv { pkt: bridge::from_lib(&p), extracted, enc }
             }
             GenericEvent::RequestSendPacket { packet, release_packet_id_if_send_error } => Ev::Send {
                 pkt: bridge::from_lib(&packet),
